@@ -114,6 +114,39 @@ def graphml(a):
     return out
 
 
+def _cells(x):
+    """Attribute array -> dtype kind + exact Python values."""
+    a = np.asarray(x)
+    kind = {'b': 'bool', 'i': 'int', 'u': 'int', 'f': 'float', 'U': 'str', 'S': 'str'}.get(a.dtype.kind, str(a.dtype))
+    return {'kind': kind, 'values': [v.item() if hasattr(v, 'item') else v for v in a]}
+
+
+def _plain(d):
+    return {k: (_plain(v) if isinstance(v, dict) else v) for k, v in d.items()}
+
+
+def graphml_doc(a):
+    """The real from_graphml on a serialised document; the whole Bunch in comparable form (dense adjacency)."""
+    p = _write(a['root'], 'doc.graphml', a['text'])
+    kw = {}
+    if a.get('weight_key') is not None:
+        kw['weight_key'] = a['weight_key']
+    if a.get('max_string_size') is not None:
+        kw['max_string_size'] = a['max_string_size']
+    r = sk_parse.from_graphml(p, **kw)
+    adj = r['adjacency']
+    dense = adj.toarray()
+    out = {'keys': sorted(r.keys()), 'n': int(adj.shape[0]), 'shape': [int(adj.shape[0]), int(adj.shape[1])],
+           'dtype': {'b': 'bool', 'i': 'int', 'u': 'int', 'f': 'float'}.get(adj.dtype.kind, str(adj.dtype)),
+           'format': adj.getformat(), 'stored': int(len(adj.data)),
+           'dense': [[v.item() for v in row] for row in dense],
+           'names': None if 'names' not in r else [str(x) for x in r['names']]}
+    for k in ('node_attribute', 'edge_attribute'):
+        out[k] = None if k not in r else {nm: _cells(v) for nm, v in r[k].items()}
+    out['meta'] = None if 'meta' not in r else _plain(r['meta'])
+    return out
+
+
 # ---------------------------------------------------------------------------------------------
 # path check and extraction
 # ---------------------------------------------------------------------------------------------
